@@ -267,6 +267,27 @@ func genHist(seed uint64, prop, tier string, audit bool, mode string) *Plan {
 	if mode == "clock" {
 		addClockJumps(g, meta, p)
 	}
+	if mode == "panicinj" {
+		// fault injection into real rule bodies (fine-grain build): a seeded share of the certificate
+		// lint ops make whichever rule executes a seeded statement of that call panic there; the ops
+		// after it are the history-after-a-fault the reference comparison then judges
+		p.Knobs["worker_mode"] = "panicinj"
+		p.Knobs["finegrain"] = true
+		var ops []Op
+		for _, op := range p.Ops {
+			if op.K == "lint" && p.Objects[op.Obj].Kind == KCert && g.Chance(0.4) {
+				op.Inj = g.U64() | 1
+				ops = append(ops, op)
+				if g.Chance(0.7) {
+					// the same bytes again right after the fault, with everything: must be as if nothing had happened
+					ops = append(ops, Op{K: "lint", Obj: op.Obj, Reg: 0, Fresh: g.Chance(0.6), Path: "ex"})
+				}
+				continue
+			}
+			ops = append(ops, op)
+		}
+		p.Ops = ops
+	}
 	return p
 }
 
